@@ -6,7 +6,9 @@
 
    Only the characters [a-zA-Z0-9:/._=?-] appear literally inside a text value;
    every other code point is written as %<hex>! so the structural characters
-   ( ) [ ] , ; | ' ~ never occur inside a value and the rendering is injective. *)
+   ( ) [ ] , ; | ' ~ never occur inside a value and the rendering is injective.
+   The table after each step is rendered as a difference to the table after the
+   previous step (see [ser_delta]) to keep the compared texts small. *)
 From Coq Require Import List NArith ZArith Bool Ascii String.
 From Wpull Require Import Lib.Hex Model.UrlTable.
 Import ListNotations.
@@ -80,7 +82,28 @@ Definition ser_ret (r : ret) : string :=
   | RAll l => "A[" ++ ser_list ser_rec l ++ "]"
   end.
 
-Definition ser_step (x : ret * list rec) : string :=
-  ser_ret (fst x) ++ "|" ++ ser_list ser_rec (snd x) ++ ";".
+(* One step = the return value, the number of records of get_all() after the step,
+   and the records that differ from the table after the previous step (position and
+   rendering; positions beyond the previous length always appear).  By induction over
+   the steps two histories have the same rendering iff they have the same return
+   values and the same get_all() after every step. *)
+Fixpoint ser_delta (i : N) (old new : list string) : string :=
+  match new with
+  | [] => ""
+  | y :: new' =>
+      match old with
+      | x :: old' => (if String.eqb x y then "" else ser_N i ++ y) ++ ser_delta (i + 1) old' new'
+      | [] => ser_N i ++ y ++ ser_delta (i + 1) [] new'
+      end
+  end.
 
-Definition ser_outs (l : list (ret * list rec)) : string := ser_list ser_step l.
+Fixpoint ser_outs_from (prev : list string) (l : list (ret * list rec)) : string :=
+  match l with
+  | [] => ""
+  | x :: rest =>
+      let cur := map ser_rec (snd x) in
+      ser_ret (fst x) ++ "|" ++ ser_N (N.of_nat (List.length cur)) ++ ":" ++ ser_delta 0 prev cur ++ ";"
+      ++ ser_outs_from cur rest
+  end.
+
+Definition ser_outs (l : list (ret * list rec)) : string := ser_outs_from [] l.
